@@ -38,7 +38,7 @@ class H:
     def __init__(self, case):
         self.case = case; self.script = case['script']; self.log = []; self.fired = []; self.k = 0
         self.on_exit_msg = None; self.sent_calls = []; self.t0 = float(int(real_time.time())); self.now_ms = 0
-        self.up = self.down = None; self.world = None; self.flt = None; self.up_got = []; self.down_got = []
+        self.up = self.down = None; self.world = None; self.flt = None; self.up_got = []; self.down_got = []; self.busy_k = None
 
     def iter(self, k):
         its = self.script.get('iters') or []
@@ -139,8 +139,14 @@ def make_class():
             return None
 
         def s_send(self, frames, timeout=None):
-            h = CUR; k = h.k; h.log.append(f'send{k}'); it = h.iter(k)
+            h = CUR; k = h.k; it = h.iter(k)
             act = it.get('send', 'ret')
+            if act == 'busy':
+                # the consumer is not asking: every send of this iteration times out (False) until loop_once's outputs_timeout budget is used up and it
+                # "proceeds as if they had been sent" - for the lifecycle that is a completed send (the model's 'ret'); logged once per iteration
+                if h.busy_k != k: h.busy_k = k; h.log.append(f'send{k}'); h.now_ms = it.get('clock', 0)
+                return False
+            h.log.append(f'send{k}')
             if act == 'stop':
                 h.fired.append([f'send{k}', 'stop']); self.stop_evt.set(); return False
             self.do(f'send{k}', act, 'send')
@@ -199,6 +205,7 @@ def run_impl(case, emitter=None):
             h.down = Z.ZMQReceiver(OUT, 'down', lambda m: h.down_got.append(m[0]))
     if s.get('exit_after') is not None:
         cfg['exit_after'] = exit_after_value(case.get('exit_after_form', 'float'), s['exit_after'], h.t0)
+    if any(it.get('send') == 'busy' for it in (s.get('iters') or [])): cfg['outputs_timeout'] = 250      # documented (experimental) give-up time of loop_once's send loop
     cfg.update(case.get('cfg_extra') or {})      # options of a user-defined filter (any names): they travel with the lineage START event
     base_ref = Z.ZMQContext.context[1]; base_open = sum(1 for x in world.all_socks if not x.closed)
     real_init = M.MQ.__init__
@@ -246,7 +253,11 @@ def world_socket(world, addr):
 
 
 def driver_req(case, op='c08.run', **kw):
-    return dict(op=op, prop=case['prop'], obey=case['obey'], loop_exc=case['loop_exc'], script=case['script'], **kw)
+    script = case['script']
+    if any(it.get('send') == 'busy' for it in (script.get('iters') or [])):
+        # a send that gives up after outputs_timeout is, for the lifecycle, a completed send: the model's 'ret'
+        script = dict(script, iters=[{k: v for k, v in it.items() if not (k == 'send' and v == 'busy')} for it in script['iters']])
+    return dict(op=op, prop=case['prop'], obey=case['obey'], loop_exc=case['loop_exc'], script=script, **kw)
 
 
 EMITTER_EVS = {'emit_start', 'hb_start', 'hb_stop', 'exiting', 'emit_stop:clean', 'emit_stop:abort'}
@@ -306,6 +317,8 @@ def random_script(rng, n_faults=2, n_iters=None):
     for p in rng.sample(pts, min(n_faults, len(pts))):
         if p in ('mq_raises', 'send_exit_raises'): set_point(s, p, True)
         else: set_point(s, p, rng.choice(point_acts(p.rstrip('0123456789'))))
+    for it in s['iters']:
+        if 'send' not in it and rng.random() < 0.12: it['send'] = 'busy'
     if rng.random() < 0.3:
         s['exit_after'] = rng.choice([500, 1000, 1500, 2500])
         t = 0
